@@ -4,6 +4,7 @@ import (
 	"go/constant"
 	"go/token"
 	"go/types"
+	"strings"
 
 	"golang.org/x/tools/go/ssa"
 )
@@ -486,13 +487,34 @@ func (tr *Tracer) generalise(st *state, f *frame, h, from *ssa.BasicBlock) {
 		}
 	}
 	_ = anyCall
-	for id := range st.escaped {
-		st.dirty[id] = true
+	// a loop whose body provably writes only named fields and local variables (no opaque effects) leaves
+	// every other field cell alone
+	quiet, fieldsStored := tr.loopModSet(body)
+	if !quiet {
+		for id := range st.escaped {
+			st.dirty[id] = true
+		}
 	}
 	for k, c := range st.store {
 		r := c.addr.root()
 		if r.Kind == KAlloc {
 			if a, ok := r.Ref.(*ssa.Alloc); ok && a.Parent() == f.fn && !touched[a] && !st.escaped[r.ID] {
+				continue
+			}
+		}
+		if quiet && r.Kind != KAlloc {
+			stored := false
+			for a := c.addr; a != nil && (a.Kind == KFieldAddr || a.Kind == KIndexAddr); a = a.Args[0] {
+				if a.Kind == KIndexAddr {
+					stored = true // element cells: be conservative
+					break
+				}
+				if fieldsStored[a.Field.Origin()] {
+					stored = true
+					break
+				}
+			}
+			if !stored && (c.addr.Kind == KFieldAddr) {
 				continue
 			}
 		}
@@ -514,6 +536,73 @@ func (tr *Tracer) generalise(st *state, f *frame, h, from *ssa.BasicBlock) {
 		}
 		st.store[k] = &cell{addr: c.addr, val: nv}
 	}
+}
+
+// loopModSet inspects the blocks of a loop: quiet = no instruction with unknown effects on memory
+// (only stores to locals and to named fields, calls of effect-free functions); fieldsStored = the
+// struct fields stored to in the body.
+func (tr *Tracer) loopModSet(body map[*ssa.BasicBlock]bool) (bool, map[*types.Var]bool) {
+	fields := map[*types.Var]bool{}
+	quiet := true
+	for b := range body {
+		for _, in := range b.Instrs {
+			switch in := in.(type) {
+			case *ssa.Store:
+				if rootAlloc(in.Addr) != nil {
+					continue
+				}
+				if fa, ok := in.Addr.(*ssa.FieldAddr); ok {
+					if fv := fieldVar(fa.X.Type(), fa.Field); fv != nil {
+						fields[fv.Origin()] = true
+						continue
+					}
+				}
+				quiet = false
+			case *ssa.MapUpdate, *ssa.Send, *ssa.Go, *ssa.Defer, *ssa.Select, *ssa.RunDefers:
+				quiet = false
+			case *ssa.UnOp:
+				if in.Op == token.ARROW {
+					quiet = false
+				}
+			case *ssa.Call:
+				cc := in.Common()
+				if bi, ok := cc.Value.(*ssa.Builtin); ok {
+					switch bi.Name() {
+					case "copy", "delete", "close", "recover", "clear":
+						quiet = false
+					}
+					continue
+				}
+				if cc.IsInvoke() {
+					if cc.Method.Pkg() != nil && tr.c.inModule(cc.Method.Pkg()) {
+						quiet = false
+					}
+					continue
+				}
+				callee := cc.StaticCallee()
+				if callee == nil {
+					quiet = false
+					continue
+				}
+				if tr.c.fnInModule(callee) {
+					if !tr.c.pureModuleFn(callee) {
+						quiet = false
+					}
+					continue
+				}
+				n := callee.String()
+				if strings.HasPrefix(n, "(*sync.") || strings.HasPrefix(n, "(*container/") || strings.HasPrefix(n, "container/heap.") || strings.HasPrefix(n, "sort.") || n == "time.Sleep" || n == "runtime.Gosched" {
+					quiet = false
+				}
+				for _, a := range cc.Args {
+					if _, isSig := a.Type().Underlying().(*types.Signature); isSig {
+						quiet = false
+					}
+				}
+			}
+		}
+	}
+	return quiet, fields
 }
 
 func rootAlloc(v ssa.Value) *ssa.Alloc {
